@@ -71,7 +71,10 @@ def make_cases(tier, seed, n_random=None):
         graphs.append((f"rand{seed}_{i}", n, dom_wfsa.random_graph(rng, n)))
     for i, (nm, n, e) in enumerate(graphs):
         for k, sr in enumerate(srs):
-            cases.append(dict(kind="one", name=nm, n=n, edges=e, sr=sr, names=names[(i + k) % len(names)], perms=3, pseed=i))
+            # twice: every edge is assigned a second time (`G[i, j] += zero`, a no-op on the weight): the call sites accumulate an edge
+            # in several steps and the adjacency maps must not list a successor twice (strengthened after seeded change C15-4)
+            cases.append(dict(kind="one", name=nm + ("#twice" if (i + k) % 2 else ""), n=n, edges=e, sr=sr, names=names[(i + k) % len(names)], perms=3, pseed=i,
+                              twice=bool((i + k) % 2)))
     # a non-commutative closed semiring (words of length <= LANG_K): corpus, all digraphs on <= 2 nodes, samples on 3..4 nodes
     for nm, n, e in graphs[:len(dom_wfsa.graph_corpus())]:
         if n <= 5:
@@ -96,7 +99,7 @@ def check_graph(out, case, name, n, edges, sr, namer, perms, SR):
     R, ops, conv, val = SR[sr]
     f = NAMERS[namer]
     nodes = [f(i) for i in range(n)]
-    sub = dict(kind="one", name=name, n=n, edges=edges, sr=sr, names=namer, perms=perms, pseed=case.get("pseed", 0))
+    sub = dict(kind="one", name=name, n=n, edges=edges, sr=sr, names=namer, perms=perms, pseed=case.get("pseed", 0), twice=case.get("twice", False))
     desc = dict(graph=f"nodes={nodes} edges={[(f(i), f(j), str(w)) for i, j, w in edges]}", semiring=sr, instance=name)
 
     def viol(ob, what, func, got, exp):
@@ -130,6 +133,9 @@ def check_graph(out, case, name, n, edges, sr, namer, perms, SR):
         G = WeightedGraph(R)
         for i, j, w in edges:
             G[f(i), f(j)] += conv(w)
+        if case.get("twice"):
+            for i, j, w in edges:
+                G[f(i), f(j)] += R.zero
         G.N |= set(nodes)
         return G
     st, G = gcall(CALL_TIMEOUT, build)
